@@ -22,14 +22,21 @@ structure CVFolds (ι κ : Type) where
 
 namespace CVFolds
 
-/-- `CVFolds(set, foldStart)`: fold i validates on batches [foldStart[i], foldStart[i+1]) (last: up to the end) -/
+/-- the loop of `CVFolds(set, foldStart)`: fold i validates on batches [foldStart[i], foldStart[i+1])
+(the last fold: up to `numberOfBatches`); `none` if a difference would wrap around -/
+def foldsFromStarts : List Nat → Nat → Option (List (List Nat))
+  | [], _ => some []
+  | [s], nb => do
+    let size ← csub nb s
+    pure [(List.range size).map (· + s)]
+  | s :: s' :: rest, nb => do
+    let size ← csub s' s
+    let tl ← foldsFromStarts (s' :: rest) nb
+    pure ((List.range size).map (· + s) :: tl)
+
+/-- `CVFolds(set, foldStart)` -/
 def ofStarts (set : LabeledData ι κ) (foldStart : List Nat) : R (CVFolds ι κ) := do
-  let nb := set.numberOfBatches
-  let folds ← (List.range foldStart.length).mapM fun p => do
-    let s ← ofOpt foldStart[p]?
-    let e := if p + 1 = foldStart.length then nb else foldStart[p + 1]?.getD 0
-    let size ← ofOpt (csub e s)
-    pure ((List.range size).map (· + s))
+  let folds ← ofOpt (foldsFromStarts foldStart set.numberOfBatches)
   pure ⟨set, folds⟩
 
 def size (f : CVFolds ι κ) : Nat := f.validationFolds.length
